@@ -11,7 +11,7 @@ A contract module under /verif/contracts is an ordinary Python module:
 Nothing here imports taskchain.
 """
 from . import kinds as K
-from .kinds import Int, Bool, Str, Dyn, DynL, U, Opt, Tup, Rec, Seq, Map, Cls as ClsTag, Path as PathK  # re-exported for contract modules
+from .kinds import Int, Bool, Str, Dyn, DynL, U, Opt, Tup, Rec, Seq, Map, SetOf, Cls as ClsTag, Path as PathK  # re-exported for contract modules
 
 
 # ---------------------------------------------------------------- shapes of symbolic inputs
